@@ -15,6 +15,7 @@ import (
 
 var (
 	errRollback = errors.New("verif: generated rollback")
+	errBodyPanic = errors.New("verif: generated panic of a transaction body")
 	errStep     = errors.New("verif: generated callback failure")
 )
 
@@ -324,18 +325,34 @@ func execTxn(c *column.Collection, sch *Schema, live []bool, t TxnSpec) ([]StepR
 // after each step (no lock is held there).
 func execTxnObs(c *column.Collection, sch *Schema, live []bool, t TxnSpec, obs func(i int, txn *column.Txn, res []StepResult)) ([]StepResult, error) {
 	res := make([]StepResult, len(t.Steps))
-	err := c.Query(func(txn *column.Txn) error {
-		for i := range t.Steps {
-			execStep(txn, sch, live, t.Steps, i, res)
-			if obs != nil {
-				obs(i, txn, res)
+	var err error
+	func() {
+		defer func() {
+			if t.Panic {
+				if p := recover(); p != nil {
+					if p != any(errBodyPanic) {
+						panic(p)
+					}
+					err = errBodyPanic
+				}
 			}
-			if t.FailAt == i {
-				return errRollback
+		}()
+		err = c.Query(func(txn *column.Txn) error {
+			for i := range t.Steps {
+				execStep(txn, sch, live, t.Steps, i, res)
+				if obs != nil {
+					obs(i, txn, res)
+				}
+				if t.FailAt == i {
+					if t.Panic {
+						panic(errBodyPanic)
+					}
+					return errRollback
+				}
 			}
-		}
-		return nil
-	})
+			return nil
+		})
+	}()
 	return res, err
 }
 
